@@ -339,9 +339,10 @@ def scenario_interleave(rng, sc, tag, prefix, nproc, schedule):
         w.close()
 
 
-def scenario_probe(rng, sc, tag, prefix, a, b, crash):
-    """two indexing runs racing (the first has made `a` steps, the second `b`), optionally the second dies there; a READER then loads
-    (it must fail loudly or see exactly the current content); the writers finish; a last fresh load"""
+def scenario_probe(rng, sc, tag, prefix, a, b, crash, a2=0):
+    """two indexing runs racing (the first has made `a` steps, the second `b`), optionally the second dies there; the first makes `a2`
+    more steps (-1 = runs to its end); a READER then loads (it must fail loudly or see exactly the current content); the writers finish;
+    a last fresh load"""
     w = World(sc, tag)
     try:
         for x in prefix:
@@ -360,13 +361,18 @@ def scenario_probe(rng, sc, tag, prefix, a, b, crash):
             w.step(p1)
         if crash:
             w.crash(p1)
+        if a2 < 0:
+            w.run_to_end(p0)
+        else:
+            for _ in range(a2):
+                w.step(p0)
         r = w.spawn(); w.run_to_end(r)
         w.run_to_end(p0)
         if not crash:
             w.run_to_end(p1)
         w.tick()
         r2 = w.spawn(); w.run_to_end(r2)
-        return w, {"kind": "writers-and-reader", "prefix": prefix, "a": a, "b": b, "second_writer_dies": crash}
+        return w, {"kind": "writers-and-reader", "prefix": prefix, "a": a, "b": b, "second_writer_dies": crash, "first_writer_then": a2}
     finally:
         w.close()
 
@@ -458,14 +464,14 @@ def run(ctx):
             judge(w, out, "interleavings", d)
         # a reader (and a later fresh load) while two indexing runs race, the second possibly dying: quick = a seeded sample of the
         # (a, b, dies) grid, thorough = the whole grid from a cold start + a sample from the stale start
-        grid = [(a, b, c) for a in range(0, 16) for b in range(0, 16) for c in (False, True)]
-        picks = grid if ctx.thorough else rng.sample(grid, 16)
-        for a, b, c in picks:
-            w, d = scenario_probe(rng, sc, next(tag), PREFIXES[0], a, b, c)
+        grid = [(a, b, c, a2) for a in range(0, 16) for b in range(0, 16) for c in (False, True) for a2 in (0, 1, 2, -1)]
+        picks = grid if ctx.thorough else rng.sample(grid, 24)
+        for a, b, c, a2 in picks:
+            w, d = scenario_probe(rng, sc, next(tag), PREFIXES[0], a, b, c, a2)
             judge(w, out, "writers-and-reader", d)
         if ctx.thorough:
-            for a, b, c in rng.sample(grid, 80):
-                w, d = scenario_probe(rng, sc, next(tag), PREFIXES[2], a, b, c)
+            for a, b, c, a2 in rng.sample(grid, 120):
+                w, d = scenario_probe(rng, sc, next(tag), PREFIXES[2], a, b, c, a2)
                 judge(w, out, "writers-and-reader", d)
         if ctx.thorough:
             for _ in range(30):
@@ -493,12 +499,16 @@ def search(ctx, broken):
                 s = [ctx.rng.choice([0, 1, "t"]) for _ in range(ctx.rng.randint(5, 30))]
                 w, d = scenario_interleave(ctx.rng, sc, next(tag), ctx.rng.choice(PREFIXES), 2, s)
                 judge(w, ctx.out, "search-interleavings", d)
-            # the whole writers-and-reader grid from a cold start (stop at the first failing history)
-            for a in range(0, 16):
-                for b in range(0, 16):
-                    for c in (False, True):
-                        w, d = scenario_probe(ctx.rng, sc, next(tag), PREFIXES[0], a, b, c)
-                        judge(w, ctx.out, "search-writers-and-reader", d)
+            # the whole writers-and-reader grid from a cold start (stop at the first failing history); the most telling continuation
+            # (first writer runs to its end before the reader comes) first
+            for a2 in (-1, 1, 0, 2):
+                for a in range(0, 16):
+                    for b in range(0, 16):
+                        for c in (False, True):
+                            w, d = scenario_probe(ctx.rng, sc, next(tag), PREFIXES[0], a, b, c, a2)
+                            judge(w, ctx.out, "search-writers-and-reader", d)
+                    if any(not f.get("finding") for f in ctx.out.oracle_failures[n0:]):
+                        break
                 if any(not f.get("finding") for f in ctx.out.oracle_failures[n0:]):
                     break
     finally:
